@@ -29,6 +29,9 @@ func stringRuleToASTNodeType(a schema.ASTNode, s string) schema.ASTNode {
 	if s == "any" {
 		a.TokenType = schema.TokenTypeString
 		a.SchemaType = s // any
+	} else if s == StringEnum { // JSight example: // {or: [ {type: "enum", enum: [1, 2]}... ]}
+		a.TokenType = schema.TokenTypeString
+		a.SchemaType = s // enum
 	} else if format := FormatFromSchemaType(s); format != nil { // JSight example: // {or: [ "email"... ]}
 		a.TokenType = schema.TokenTypeString
 		a.Rules.Set("type", schema.RuleASTNode{
